@@ -101,10 +101,10 @@ Proof. vm_compute. reflexivity. Qed.
 Lemma project_root_builtin : mem_str project_root_key builtin_store = true.
 Proof. vm_compute. reflexivity. Qed.
 
-Lemma sig_in_reserved e k : In k (sig_of e) -> mem_str k reserved_names = true.
+Lemma sig_in_reserved e k : e <> ERepo -> In k (sig_of e) -> mem_str k reserved_names = true.
 Proof.
-  intro Hk. pose proof sigs_reserved as H. rewrite forallb_forall in H. apply H.
-  apply in_or_app. destruct e; cbn [sig_of] in Hk; [left | left | right]; exact Hk.
+  intros He Hk. pose proof sigs_reserved as H. rewrite forallb_forall in H. apply H.
+  apply in_or_app. destruct e; cbn [sig_of] in Hk; [left | left | right | contradiction]; exact Hk.
 Qed.
 
 Lemma in_firstn_in {A} (x : A) n : forall l, In x (firstn n l) -> In x l.
@@ -155,13 +155,13 @@ Proof.
 Qed.
 
 (* keywords whose names are not reserved are passed through untouched, whatever the entry point *)
-Lemma bind_kwargs_unreserved e call_kw :
+Lemma bind_kwargs_unreserved e call_kw : e <> ERepo ->
   (forall k, In k (keys call_kw) -> mem_str k reserved_names = false) -> bind_kwargs e call_kw = Some call_kw.
 Proof.
-  intro H. unfold bind_kwargs.
+  intros He H. unfold bind_kwargs.
   assert (Hs : forall kv, In kv call_kw -> mem_str (fst kv) (sig_of e) = false).
   { intros [k v] Hin. cbn. destruct (mem_str k (sig_of e)) eqn:E; [|reflexivity].
-    apply mem_str_In, sig_in_reserved in E. rewrite H in E; [discriminate|].
+    apply mem_str_In, (sig_in_reserved e k He) in E. rewrite H in E; [discriminate|].
     unfold keys. apply in_map_iff. exists (k, v). split; [reflexivity | exact Hin]. }
   rewrite existsb_none.
   - rewrite filter_all; [reflexivity|]. intros kv Hin. rewrite (Hs kv Hin). reflexivity.
@@ -198,34 +198,35 @@ Lemma grows_same_heap kw opn s s' : heap s' = heap s -> grows kw opn s s'.
 Proof. intro H. exists []. split; [rewrite app_nil_r; exact H | constructor]. Qed.
 
 Section LoopsGrow.
-  Variable rec : nat -> file -> lstate -> res.
+  Variable rec : nat -> nat -> file -> lstate -> res.
   Variable w : list file.
   Variable kw : list (list N * N).
   Variable opn : nat.
-  Hypothesis rec_grows : forall f fr s s', rec f fr s = Ok s' -> grows kw opn s s'.
+  Hypothesis rec_grows : forall mm f fr s s', rec mm f fr s = Ok s' -> grows kw opn s s'.
 
-  Lemma load_files_grows fs : forall s s', load_files rec w fs s = Ok s' -> grows kw opn s s'.
+  Lemma load_files_grows fs : forall dflt s s', load_files rec w dflt fs s = Ok s' -> grows kw opn s s'.
   Proof.
-    induction fs as [|f fs IH]; intros s s' H; cbn [load_files] in H.
+    induction fs as [|f fs IH]; intros dflt s s' H; cbn [load_files] in H.
     - inversion H; subst. apply grows_refl.
-    - destruct (repo_find f (allm s)); [apply IH; exact H|].
-      destruct (nth_error w f) as [fr|]; [|discriminate].
-      destruct (rec f fr s) as [s1|e] eqn:E; [|discriminate].
-      eapply grows_trans; [eapply rec_grows; exact E | apply IH; exact H].
+    - destruct (nth_error w f) as [fr|]; [|discriminate].
+      destruct (repo_find f (allm s)); [eapply IH; exact H|].
+      destruct (mm_for dflt fr) as [mm|]; [|discriminate].
+      destruct (rec mm f fr s) as [s1|e] eqn:E; [|discriminate].
+      eapply grows_trans; [eapply rec_grows; exact E | eapply IH; exact H].
   Qed.
 
-  Lemma load_imps_grows prov fn id p l : forall s s', load_imps rec w prov fn id p l s = Ok s' -> grows kw opn s s'.
+  Lemma load_imps_grows prov mm fn id p l : forall s s', load_imps rec w prov mm fn id p l s = Ok s' -> grows kw opn s s'.
   Proof.
     induction l as [|i l IH]; intros s s' H; cbn [load_imps] in H.
     - inversion H; subst. apply grows_refl.
     - assert (X : match resolve i p with
                   | None => Fail EMissing
-                  | Some fs => match load_files rec w fs {| heap := heap s; allm := repo_register_main fn id (allm s) |} with
-                               | Ok s1 => load_imps rec w prov fn id p l s1
+                  | Some fs => match load_files rec w (Some mm) fs {| heap := heap s; allm := repo_register_main fn id (allm s) |} with
+                               | Ok s1 => load_imps rec w prov mm fn id p l s1
                                | Fail e => Fail e end end = Ok s').
       { destruct prov; try exact H; destruct fn; try exact H; discriminate. }
       clear H. destruct (resolve i p) as [fs|]; [|discriminate].
-      destruct (load_files rec w fs _) as [s1|e] eqn:E; [|discriminate].
+      destruct (load_files rec w (Some mm) fs _) as [s1|e] eqn:E; [|discriminate].
       eapply grows_trans; [|apply IH; exact X].
       eapply grows_trans; [|eapply load_files_grows; exact E].
       apply grows_same_heap. reflexivity.
@@ -235,22 +236,22 @@ End LoopsGrow.
 Lemma nth_error_snoc {A} (l : list A) x : nth_error (l ++ [x]) (length l) = Some x.
 Proof. rewrite nth_error_app2 by lia. rewrite Nat.sub_diag. reflexivity. Qed.
 
-Lemma load_new_grows fuel : forall w prov opn fn fr p reg s s',
-  load_new fuel w prov opn fn fr p reg s = Ok s' -> grows p opn s s'.
+Lemma load_new_grows fuel : forall w prov opn mm fn fr p reg s s',
+  load_new fuel w prov opn mm fn fr p reg s = Ok s' -> grows p opn s s'.
 Proof.
-  induction fuel as [|fuel IH]; intros w prov opn fn fr p reg s s' H; cbn [load_new] in H; [discriminate|].
+  induction fuel as [|fuel IH]; intros w prov opn mm fn fr p reg s s' H; cbn [load_new] in H; [discriminate|].
   destruct (f_prim fr) eqn:Ep.
   - destruct (reg || is_loader prov); [discriminate|]. inversion H; subst; clear H.
     eexists. split; [cbn [heap]; reflexivity|]. constructor; [|constructor].
     split; [reflexivity|]. right. split; reflexivity.
-  - set (m := {| m_file := fn; m_prim := false; m_params := Some p; m_op := opn |}) in *.
+  - set (m := {| m_file := fn; m_prim := false; m_params := Some p; m_op := opn; m_mm := mm |}) in *.
     assert (G1 : forall a, grows p opn s {| heap := heap s ++ [m]; allm := a |}).
     { intro a. exists [m]. split; [reflexivity|]. constructor; [|constructor]. split; [reflexivity|]. left. split; reflexivity. }
     destruct (is_loader prov).
     + cbn [heap] in H. rewrite nth_error_snoc in H. cbn [m_params m] in H.
       eapply grows_trans; [apply G1|].
       eapply load_imps_grows; [|exact H].
-      intros f fr' s0 s0' H0. eapply IH. exact H0.
+      intros mm' f fr' s0 s0' H0. eapply IH. exact H0.
     + inversion H; subst. apply G1.
 Qed.
 
@@ -268,8 +269,8 @@ Proof.
   split; [exact Ha|]. split; [exact Fa|]. intro E; subst added. rewrite app_nil_r in Ha. exact (Hne s' eq_refl Ha).
 Qed.
 
-Lemma load_new_creates fuel w prov opn fn fr p reg s s' :
-  load_new fuel w prov opn fn fr p reg s = Ok s' -> heap s' <> heap s.
+Lemma load_new_creates fuel w prov opn mm fn fr p reg s s' :
+  load_new fuel w prov opn mm fn fr p reg s = Ok s' -> heap s' <> heap s.
 Proof.
   intro H. destruct fuel as [|fuel]; [discriminate|]. cbn [load_new] in H.
   assert (L : forall m a s2, grows p opn {| heap := heap s ++ [m]; allm := a |} s2 -> heap s2 <> heap s).
@@ -280,7 +281,7 @@ Proof.
     apply (f_equal (@length mrec)) in E. rewrite app_length in E. cbn [length] in E. lia.
   - destruct (is_loader prov).
     + cbn [heap] in H. rewrite nth_error_snoc in H. cbn [m_params] in H.
-      eapply L. eapply load_imps_grows; [|exact H]. intros f fr' s0 s0' H0. eapply load_new_grows. exact H0.
+      eapply L. eapply load_imps_grows; [|exact H]. intros mm' f fr' s0 s0' H0. eapply load_new_grows. exact H0.
     + inversion H; subst. cbn [heap]. intro E.
       apply (f_equal (@length mrec)) in E. rewrite app_length in E. cbn [length] in E. lia.
 Qed.
@@ -293,10 +294,10 @@ Lemma run_op_loaded w c declared opn g o g' res n0 repo kw :
     ((added = [] /\ g' = g /\ c_grepo c = true /\ exists f, repo_find f (g_repo g) = Some res) \/ (res = n0 /\ added <> [])).
 Proof.
   unfold run_op. intros H Hb. rewrite Hb in H.
-  destruct (check_params declared kw); [inversion H|].
+  destruct (match o_entry o with ERepo => None | _ => check_params declared kw end); [inversion H|].
   destruct (is_str_entry (o_entry o) && negb (o_is_str o)); [inversion H|].
   assert (Fin : forall e prim fn fr reg,
-    finish_load c g e prim (load_new (fuel_for w) w (c_prov c) opn fn fr kw reg
+    finish_load c g e prim (load_new (fuel_for w) w (c_prov c) opn 0 fn fr kw reg
        {| heap := g_heap g; allm := if c_grepo c then g_repo g else [] |}) = (g', OLoaded res n0 repo) ->
     n0 = length (g_heap g) /\
     exists added, g_heap g' = g_heap g ++ added /\ Forall (good kw opn) added /\
@@ -306,7 +307,7 @@ Proof.
       right. split; [exact Hr | exact Hne].
     - intros s' E. eapply load_new_grows. exact E.
     - intros s' E. apply load_new_creates in E. exact E. }
-  destruct (o_entry o) as [|f|f].
+  destruct (o_entry o) as [|f|f|].
   - eapply Fin. exact H.
   - destruct (c_grepo c) eqn:Eg.
     + destruct (repo_find f (g_repo g)) as [id|] eqn:Ef.
@@ -320,9 +321,52 @@ Proof.
         left. split; [reflexivity|]. split; [reflexivity|]. split; [reflexivity|]. exists f. exact Ef.
       * destruct (nth_error w f) as [fr|]; [|inversion H]. eapply Fin. exact H.
     + destruct (nth_error w f) as [fr|]; [|inversion H]. eapply Fin. exact H.
+  - destruct (c_prov c); try solve [inversion H]. destruct (load_pats _ _ _ _); inversion H.
 Qed.
 
-Definition is_loaded (out : outcome) : bool := match out with OLoaded _ _ _ => true | _ => false end.
+(* load_models_in_model_repo: every model it creates carries the bound keyword arguments; the metamodel's
+   repository is not touched *)
+Section PatsGrow.
+  Variable rec : nat -> nat -> file -> lstate -> res.
+  Variable w : list file.
+  Variable kw : list (list N * N).
+  Variable opn : nat.
+  Hypothesis rec_grows : forall mm f fr s s', rec mm f fr s = Ok s' -> grows kw opn s s'.
+  Lemma load_pats_grows l : forall s s', load_pats rec w l s = Ok s' -> grows kw opn s s'.
+  Proof.
+    induction l as [|i l IH]; intros s s' H; cbn [load_pats] in H.
+    - inversion H; subst. apply grows_refl.
+    - destruct (i_plain i) as [fs|]; [|discriminate].
+      destruct (load_files rec w None fs s) as [s1|e] eqn:E; [|discriminate].
+      eapply grows_trans; [eapply load_files_grows; eassumption | apply IH; exact H].
+  Qed.
+End PatsGrow.
+
+Lemma run_op_repo w c declared opn g o g' n0 repo kw :
+  run_op w c declared opn g o = (g', ORepo n0 repo) ->
+  bind_kwargs (o_entry o) (o_kw o) = Some kw ->
+  o_entry o = ERepo /\ n0 = length (g_heap g) /\ g_repo g' = g_repo g /\
+  exists added, g_heap g' = g_heap g ++ added /\ Forall (good kw opn) added.
+Proof.
+  unfold run_op. intros H Hb. rewrite Hb in H.
+  destruct (match o_entry o with ERepo => None | _ => check_params declared kw end); [inversion H|].
+  destruct (is_str_entry (o_entry o) && negb (o_is_str o)); [inversion H|].
+  assert (Fin : forall e prim r, finish_load c g e prim r <> (g', ORepo n0 repo)).
+  { intros e prim r. unfold finish_load. destruct r; intro X; inversion X. }
+  destruct (o_entry o) as [|f|f|].
+  - exfalso. exact (Fin _ _ _ H).
+  - destruct (if c_grepo c then repo_find f (g_repo g) else None); [inversion H | exfalso; exact (Fin _ _ _ H)].
+  - destruct (if c_grepo c then repo_find f (g_repo g) else None); [inversion H|].
+    destruct (nth_error w f); [exfalso; exact (Fin _ _ _ H) | inversion H].
+  - destruct (c_prov c); try solve [inversion H].
+    destruct (load_pats _ _ _ _) as [s'|x] eqn:E; inversion H; subst; clear H.
+    split; [reflexivity|]. split; [reflexivity|]. split; [reflexivity|].
+    eapply load_pats_grows with (kw := kw) (opn := opn) in E.
+    + destruct E as (added & Ha & Fa). exists added. split; [exact Ha | exact Fa].
+    + intros mm f fr s0 s0' H0. eapply load_new_grows. exact H0.
+Qed.
+
+Definition is_loaded (out : outcome) : bool := match out with OLoaded _ _ _ | ORepo _ _ => true | _ => false end.
 
 (* a refused or failed operation leaves no trace *)
 Lemma run_op_not_loaded w c declared opn g o :
@@ -330,33 +374,49 @@ Lemma run_op_not_loaded w c declared opn g o :
 Proof.
   unfold run_op.
   destruct (bind_kwargs (o_entry o) (o_kw o)) as [kw|]; [|reflexivity].
-  destruct (check_params declared kw); [reflexivity|].
+  destruct (match o_entry o with ERepo => None | _ => check_params declared kw end); [reflexivity|].
   destruct (is_str_entry (o_entry o) && negb (o_is_str o)); [reflexivity|].
   assert (Fin : forall e prim r, is_loaded (snd (finish_load c g e prim r)) = false -> fst (finish_load c g e prim r) = g).
   { intros e prim r. unfold finish_load. destruct r; cbn; [discriminate | reflexivity]. }
-  destruct (o_entry o) as [|f|f].
+  destruct (o_entry o) as [|f|f|].
   - apply Fin.
   - destruct (if c_grepo c then repo_find f (g_repo g) else None); [reflexivity | apply Fin].
   - destruct (if c_grepo c then repo_find f (g_repo g) else None); [reflexivity|].
     destruct (nth_error w f); [apply Fin | reflexivity].
+  - destruct (c_prov c); try reflexivity. destruct (load_pats _ _ _ _); cbn; [discriminate | reflexivity].
 Qed.
 
 (* rejection happens exactly when a bound keyword is not declared, and names the first such keyword *)
 Lemma run_op_rejected w c declared opn g o kw :
+  o_entry o <> ERepo ->
   bind_kwargs (o_entry o) (o_kw o) = Some kw ->
   forall k, snd (run_op w c declared opn g o) = ORejected k <-> check_params declared kw = Some k.
 Proof.
-  intros Hb k. unfold run_op. rewrite Hb. destruct (check_params declared kw) as [k'|] eqn:E.
+  intros He Hb k. unfold run_op. rewrite Hb.
+  replace (match o_entry o with ERepo => None | _ => check_params declared kw end) with (check_params declared kw)
+    by (destruct (o_entry o); try reflexivity; contradiction).
+  destruct (check_params declared kw) as [k'|] eqn:E.
   - cbn. split; intro H; inversion H; reflexivity.
   - split; [|discriminate]. intro H. exfalso.
     destruct (is_str_entry (o_entry o) && negb (o_is_str o)); [discriminate|].
     assert (Fin : forall e prim r, snd (finish_load c g e prim r) <> ORejected k).
     { intros e prim r. unfold finish_load. destruct r; cbn; discriminate. }
-    destruct (o_entry o) as [|f|f].
+    destruct (o_entry o) as [|f|f|].
     + exact (Fin _ _ _ H).
     + destruct (if c_grepo c then repo_find f (g_repo g) else None); [discriminate | exact (Fin _ _ _ H)].
     + destruct (if c_grepo c then repo_find f (g_repo g) else None); [discriminate|].
       destruct (nth_error w f); [exact (Fin _ _ _ H) | discriminate].
+    + contradiction.
+Qed.
+
+(* load_models_in_model_repo never validates *)
+Lemma run_op_repo_never_rejects w c declared opn g o k :
+  o_entry o = ERepo -> snd (run_op w c declared opn g o) <> ORejected k.
+Proof.
+  intros He. unfold run_op. rewrite He.
+  destruct (bind_kwargs ERepo (o_kw o)) as [kw|]; [|discriminate].
+  cbn [is_str_entry andb]. destruct (c_prov c); try discriminate.
+  destruct (load_pats _ _ _ _); discriminate.
 Qed.
 
 Lemma run_op_typeerror w c declared opn g o :
@@ -364,15 +424,16 @@ Lemma run_op_typeerror w c declared opn g o :
 Proof.
   unfold run_op. destruct (bind_kwargs (o_entry o) (o_kw o)) as [kw|]; [|split; reflexivity].
   split; [|discriminate]. intro H. exfalso.
-  destruct (check_params declared kw); [discriminate|].
+  destruct (match o_entry o with ERepo => None | _ => check_params declared kw end); [discriminate|].
   destruct (is_str_entry (o_entry o) && negb (o_is_str o)); [discriminate|].
   assert (Fin : forall e prim r, snd (finish_load c g e prim r) <> OTypeError).
   { intros e prim r. unfold finish_load. destruct r; cbn; discriminate. }
-  destruct (o_entry o) as [|f|f].
+  destruct (o_entry o) as [|f|f|].
   - exact (Fin _ _ _ H).
   - destruct (if c_grepo c then repo_find f (g_repo g) else None); [discriminate | exact (Fin _ _ _ H)].
   - destruct (if c_grepo c then repo_find f (g_repo g) else None); [discriminate|].
     destruct (nth_error w f); [exact (Fin _ _ _ H) | discriminate].
+  - destruct (c_prov c); try discriminate. destruct (load_pats _ _ _ _); discriminate.
 Qed.
 
 (* ---------------------------------------------------------------- whole histories *)
@@ -387,11 +448,13 @@ Lemma run_op_step w c declared opn g o :
                    g_heap (fst (run_op w c declared opn g o)) = g_heap g ++ added /\ Forall (good kw opn) added.
 Proof.
   destruct (run_op w c declared opn g o) as [g' out] eqn:E. destruct (is_loaded out) eqn:L.
-  - destruct out as [| | | |res n0 repo]; try discriminate. right.
-    destruct (bind_kwargs (o_entry o) (o_kw o)) as [kw|] eqn:Hb.
+  - right. destruct (bind_kwargs (o_entry o) (o_kw o)) as [kw|] eqn:Hb;
+      [|unfold run_op in E; rewrite Hb in E; inversion E; subst; discriminate].
+    destruct out as [| | | |res n0 repo|n0 repo]; try discriminate.
     + destruct (run_op_loaded _ _ _ _ _ _ _ _ _ _ _ E Hb) as (_ & added & Ha & Fa & _).
       exists kw, added. split; [reflexivity|]. split; assumption.
-    + unfold run_op in E. rewrite Hb in E. inversion E.
+    + destruct (run_op_repo _ _ _ _ _ _ _ _ _ _ E Hb) as (_ & _ & _ & added & Ha & Fa).
+      exists kw, added. split; [reflexivity|]. split; assumption.
   - left. pose proof (run_op_not_loaded w c declared opn g o) as H. rewrite E in H. apply H. exact L.
 Qed.
 
@@ -413,29 +476,31 @@ Qed.
 (* ---------------------------------------------------------------- statements used by Props/C27.v *)
 
 Lemma validated w c declared opn g o kw :
+  o_entry o <> ERepo ->
   bind_kwargs (o_entry o) (o_kw o) = Some kw ->
   ((exists k, snd (run_op w c declared opn g o) = ORejected k) <->
    (exists k, In k (keys (o_kw o)) /\ ~ In k (sig_of (o_entry o)) /\ ~ In k declared)).
 Proof.
-  intro Hb. split.
-  - intros [k H]. apply (run_op_rejected w c declared opn g o kw Hb) in H.
+  intros He Hb. split.
+  - intros [k H]. apply (run_op_rejected w c declared opn g o kw He Hb) in H.
     apply check_params_some in H as (pre & v & post & Hk & Hn & _). exists k.
     assert (Hin : In k (keys kw)).
     { rewrite Hk. unfold keys. rewrite map_app. apply in_or_app. right. left. reflexivity. }
     apply (bind_kwargs_keys _ _ _ k Hb) in Hin as [H1 H2]. split; [exact H1|]. split; [exact H2 | exact Hn].
   - intros (k & H1 & H2 & H3).
     destruct (check_params declared kw) as [k'|] eqn:E.
-    + exists k'. apply (run_op_rejected w c declared opn g o kw Hb). exact E.
+    + exists k'. apply (run_op_rejected w c declared opn g o kw He Hb). exact E.
     + exfalso. apply H3. rewrite check_params_none in E. apply E.
       apply (bind_kwargs_keys _ _ _ k Hb). split; assumption.
 Qed.
 
 Lemma declared_accepted names e call_kw :
+  e <> ERepo ->
   (forall k, In k (keys call_kw) -> In k (declare builtin_store names)) ->
   bind_kwargs e call_kw = Some call_kw /\ check_params (declare builtin_store names) call_kw = None.
 Proof.
-  intro H. split.
-  - apply bind_kwargs_unreserved. intros k Hk. apply (metamodel_declared_no_reserved names). apply H. exact Hk.
+  intros He H. split.
+  - apply bind_kwargs_unreserved; [exact He|]. intros k Hk. apply (metamodel_declared_no_reserved names). apply H. exact Hk.
   - apply check_params_none. exact H.
 Qed.
 
@@ -451,7 +516,12 @@ Lemma declared_everywhere w c names opn g o g' res n0 repo :
   run_op w c (declare builtin_store names) opn g o = (g', OLoaded res n0 repo) ->
   exists added, g_heap g' = g_heap g ++ added /\ Forall (good (o_kw o) opn) added.
 Proof.
-  intros Hd H. destruct (declared_accepted names (o_entry o) (o_kw o) Hd) as [Hb _].
+  intros Hd H.
+  assert (He : o_entry o <> ERepo).
+  { intro He. unfold run_op in H. rewrite He in H.
+    destruct (bind_kwargs ERepo (o_kw o)); [|inversion H]. cbn [is_str_entry andb] in H.
+    destruct (c_prov c); try solve [inversion H]. destruct (load_pats _ _ _ _); inversion H. }
+  destruct (declared_accepted names (o_entry o) (o_kw o) He Hd) as [Hb _].
   destruct (run_op_loaded _ _ _ _ _ _ _ _ _ _ _ H Hb) as (_ & added & Ha & Fa & _).
   exists added. split; assumption.
 Qed.
@@ -573,75 +643,86 @@ Qed.
 Definition mono (s s' : lstate) : Prop := repo_le (allm s) (allm s').
 
 Section LoopsFuel.
-  Variable rec : nat -> file -> lstate -> res.
+  Variable rec : nat -> nat -> file -> lstate -> res.
   Variable w : list file.
-  Hypothesis rec_mono : forall f fr s s', rec f fr s = Ok s' -> mono s s'.
+  Hypothesis rec_mono : forall mm f fr s s', rec mm f fr s = Ok s' -> mono s s'.
 
-  Lemma load_files_mono fs : forall s s', load_files rec w fs s = Ok s' -> mono s s'.
+  Lemma load_files_mono fs : forall dflt s s', load_files rec w dflt fs s = Ok s' -> mono s s'.
   Proof.
-    induction fs as [|f fs IH]; intros s s' H; cbn [load_files] in H.
+    induction fs as [|f fs IH]; intros dflt s s' H; cbn [load_files] in H.
     - inversion H; subst. apply repo_le_refl.
-    - destruct (repo_find f (allm s)); [apply IH; exact H|].
-      destruct (nth_error w f) as [fr|]; [|discriminate].
-      destruct (rec f fr s) as [s1|e] eqn:E; [|discriminate].
-      eapply repo_le_trans; [eapply rec_mono; exact E | apply IH; exact H].
+    - destruct (nth_error w f) as [fr|]; [|discriminate].
+      destruct (repo_find f (allm s)); [eapply IH; exact H|].
+      destruct (mm_for dflt fr) as [mm|]; [|discriminate].
+      destruct (rec mm f fr s) as [s1|e] eqn:E; [|discriminate].
+      eapply repo_le_trans; [eapply rec_mono; exact E | eapply IH; exact H].
   Qed.
 
-  Lemma load_imps_step prov fn id p i l s :
-    load_imps rec w prov fn id p (i :: l) s = Fail ENoFile \/
-    load_imps rec w prov fn id p (i :: l) s =
+  Lemma load_imps_step prov mm fn id p i l s :
+    load_imps rec w prov mm fn id p (i :: l) s = Fail ENoFile \/
+    load_imps rec w prov mm fn id p (i :: l) s =
       match resolve i p with
       | None => Fail EMissing
-      | Some fs => match load_files rec w fs {| heap := heap s; allm := repo_register_main fn id (allm s) |} with
-                   | Ok s1 => load_imps rec w prov fn id p l s1
+      | Some fs => match load_files rec w (Some mm) fs {| heap := heap s; allm := repo_register_main fn id (allm s) |} with
+                   | Ok s1 => load_imps rec w prov mm fn id p l s1
                    | Fail e => Fail e end end.
   Proof. cbn [load_imps]. destruct prov; try (right; reflexivity). destruct fn; [right; reflexivity | left; reflexivity]. Qed.
 
-  Lemma load_imps_mono prov fn id p l : forall s s', load_imps rec w prov fn id p l s = Ok s' -> mono s s'.
+  Lemma load_imps_mono prov mm fn id p l : forall s s', load_imps rec w prov mm fn id p l s = Ok s' -> mono s s'.
   Proof.
     induction l as [|i l IH]; intros s s' H.
     - cbn [load_imps] in H. inversion H; subst. apply repo_le_refl.
-    - destruct (load_imps_step prov fn id p i l s) as [E|E]; rewrite E in H; [discriminate|].
+    - destruct (load_imps_step prov mm fn id p i l s) as [E|E]; rewrite E in H; [discriminate|].
       destruct (resolve i p) as [fs|]; [|discriminate].
-      destruct (load_files rec w fs _) as [s1|e] eqn:E1; [|discriminate].
+      destruct (load_files rec w (Some mm) fs _) as [s1|e] eqn:E1; [|discriminate].
       eapply repo_le_trans; [|apply IH; exact H].
       eapply repo_le_trans; [|eapply load_files_mono; exact E1].
       cbn [allm]. apply repo_le_register.
   Qed.
 
   Variable bound : nat.
-  Hypothesis rec_nofuel : forall f fr s,
-    repo_find f (allm s) = None -> nth_error w f = Some fr -> unreg w (allm s) <= bound -> rec f fr s <> Fail EFuel.
+  Hypothesis rec_nofuel : forall mm f fr s,
+    repo_find f (allm s) = None -> nth_error w f = Some fr -> unreg w (allm s) <= bound -> rec mm f fr s <> Fail EFuel.
 
-  Lemma load_files_nofuel fs : forall s, unreg w (allm s) <= bound -> load_files rec w fs s <> Fail EFuel.
+  Lemma load_files_nofuel fs : forall dflt s, unreg w (allm s) <= bound -> load_files rec w dflt fs s <> Fail EFuel.
   Proof.
-    induction fs as [|f fs IH]; intros s Hb; cbn [load_files]; [discriminate|].
-    destruct (repo_find f (allm s)) eqn:Ef; [apply IH; exact Hb|].
+    induction fs as [|f fs IH]; intros dflt s Hb; cbn [load_files]; [discriminate|].
     destruct (nth_error w f) as [fr|] eqn:En; [|discriminate].
-    destruct (rec f fr s) as [s1|e] eqn:E.
-    - apply IH. pose proof (unreg_mono w _ _ (rec_mono _ _ _ _ E)). lia.
-    - intro X. inversion X; subst. exact (rec_nofuel f fr s Ef En Hb E).
+    destruct (repo_find f (allm s)) eqn:Ef; [apply IH; exact Hb|].
+    destruct (mm_for dflt fr) as [mm|]; [|discriminate].
+    destruct (rec mm f fr s) as [s1|e] eqn:E.
+    - apply IH. pose proof (unreg_mono w _ _ (rec_mono _ _ _ _ _ E)). lia.
+    - intro X. inversion X; subst. exact (rec_nofuel mm f fr s Ef En Hb E).
   Qed.
 
-  Lemma load_imps_nofuel prov fn id p l : forall s, unreg w (allm s) <= bound -> load_imps rec w prov fn id p l s <> Fail EFuel.
+  Lemma load_imps_nofuel prov mm fn id p l : forall s, unreg w (allm s) <= bound -> load_imps rec w prov mm fn id p l s <> Fail EFuel.
   Proof.
     induction l as [|i l IH]; intros s Hb.
     - cbn [load_imps]. discriminate.
-    - destruct (load_imps_step prov fn id p i l s) as [E|E]; rewrite E; [discriminate|].
+    - destruct (load_imps_step prov mm fn id p i l s) as [E|E]; rewrite E; [discriminate|].
       destruct (resolve i p) as [fs|]; [|discriminate].
       set (s1 := {| heap := heap s; allm := repo_register_main fn id (allm s) |}).
       assert (Hb1 : unreg w (allm s1) <= bound).
       { pose proof (unreg_mono w _ _ (repo_le_register fn id (allm s))). cbn [allm s1]. lia. }
-      destruct (load_files rec w fs s1) as [s2|e] eqn:E1.
-      + apply IH. pose proof (unreg_mono w _ _ (load_files_mono _ _ _ E1)). lia.
-      + intro X. inversion X; subst. exact (load_files_nofuel fs s1 Hb1 E1).
+      destruct (load_files rec w (Some mm) fs s1) as [s2|e] eqn:E1.
+      + apply IH. pose proof (unreg_mono w _ _ (load_files_mono _ _ _ _ E1)). lia.
+      + intro X. inversion X; subst. exact (load_files_nofuel fs (Some mm) s1 Hb1 E1).
+  Qed.
+
+  Lemma load_pats_nofuel l : forall s, unreg w (allm s) <= bound -> load_pats rec w l s <> Fail EFuel.
+  Proof.
+    induction l as [|i l IH]; intros s Hb; cbn [load_pats]; [discriminate|].
+    destruct (i_plain i) as [fs|]; [|discriminate].
+    destruct (load_files rec w None fs s) as [s1|e] eqn:E.
+    - apply IH. pose proof (unreg_mono w _ _ (load_files_mono _ _ _ _ E)). lia.
+    - intro X. inversion X; subst. exact (load_files_nofuel fs None s Hb E).
   Qed.
 End LoopsFuel.
 
-Lemma load_new_mono fuel : forall w prov opn fn fr p reg s s',
-  load_new fuel w prov opn fn fr p reg s = Ok s' -> mono s s'.
+Lemma load_new_mono fuel : forall w prov opn mm fn fr p reg s s',
+  load_new fuel w prov opn mm fn fr p reg s = Ok s' -> mono s s'.
 Proof.
-  induction fuel as [|fuel IH]; intros w prov opn fn fr p reg s s' H; cbn [load_new] in H; [discriminate|].
+  induction fuel as [|fuel IH]; intros w prov opn mm fn fr p reg s s' H; cbn [load_new] in H; [discriminate|].
   destruct (f_prim fr).
   - destruct (reg || is_loader prov); [discriminate|]. inversion H; subst. apply repo_le_refl.
   - assert (M1 : repo_le (allm s) (if reg then match fn with Some f => repo_set f (length (heap s)) (allm s) | None => allm s end else allm s)).
@@ -649,15 +730,15 @@ Proof.
     destruct (is_loader prov).
     + cbn [heap] in H. rewrite nth_error_snoc in H. cbn [m_params] in H.
       eapply repo_le_trans; [exact M1|].
-      eapply load_imps_mono in H; [exact H|]. intros f fr' s0 s0' H0. eapply IH. exact H0.
+      eapply load_imps_mono in H; [exact H|]. intros mm' f fr' s0 s0' H0. eapply IH. exact H0.
     + inversion H; subst. exact M1.
 Qed.
 
-Lemma load_new_import_nofuel fuel : forall w prov opn p f fr s,
+Lemma load_new_import_nofuel fuel : forall w prov opn mm p f fr s,
   repo_find f (allm s) = None -> nth_error w f = Some fr -> unreg w (allm s) <= fuel ->
-  load_new fuel w prov opn (Some f) fr p true s <> Fail EFuel.
+  load_new fuel w prov opn mm (Some f) fr p true s <> Fail EFuel.
 Proof.
-  induction fuel as [|fuel IH]; intros w prov opn p f fr s Hf Hn Hb.
+  induction fuel as [|fuel IH]; intros w prov opn mm p f fr s Hf Hn Hb.
   - assert (Hlt : f < length w) by (apply nth_error_Some; rewrite Hn; discriminate).
     pose proof (unreg_pos w f (allm s) Hlt Hf). lia.
   - assert (Hlt : f < length w) by (apply nth_error_Some; rewrite Hn; discriminate).
@@ -665,21 +746,21 @@ Proof.
     destruct (is_loader prov); [|discriminate].
     cbn [heap]. rewrite nth_error_snoc. cbn [m_params].
     apply load_imps_nofuel with (bound := fuel).
-    + intros f' fr' s0 s0' H0. eapply load_new_mono. exact H0.
-    + intros f' fr' s0 Hf' Hn' Hb'. apply IH; assumption.
+    + intros mm' f' fr' s0 s0' H0. eapply load_new_mono. exact H0.
+    + intros mm' f' fr' s0 Hf' Hn' Hb'. apply IH; assumption.
     + cbn [allm]. pose proof (unreg_set_lt w f (length (heap s)) (allm s) Hlt Hf). lia.
 Qed.
 
-Lemma load_new_top_nofuel fuel w prov opn fn fr p reg s :
-  length w <= fuel -> load_new (S fuel) w prov opn fn fr p reg s <> Fail EFuel.
+Lemma load_new_top_nofuel fuel w prov opn mm fn fr p reg s :
+  length w <= fuel -> load_new (S fuel) w prov opn mm fn fr p reg s <> Fail EFuel.
 Proof.
   intro Hl. cbn [load_new]. destruct (f_prim fr); [destruct (reg || is_loader prov); discriminate|].
   destruct (is_loader prov); [|discriminate].
   cbn [heap]. rewrite nth_error_snoc. cbn [m_params].
   apply load_imps_nofuel with (bound := fuel).
-  - intros f' fr' s0 s0' H0. eapply load_new_mono. exact H0.
-  - intros f' fr' s0 Hf' Hn' Hb'. apply load_new_import_nofuel; assumption.
-  - pose proof (unreg_le_len w (allm {| heap := heap s ++ [{| m_file := fn; m_prim := false; m_params := Some p; m_op := opn |}];
+  - intros mm' f' fr' s0 s0' H0. eapply load_new_mono. exact H0.
+  - intros mm' f' fr' s0 Hf' Hn' Hb'. apply load_new_import_nofuel; assumption.
+  - pose proof (unreg_le_len w (allm {| heap := heap s ++ [{| m_file := fn; m_prim := false; m_params := Some p; m_op := opn; m_mm := mm |}];
                                         allm := if reg then match fn with Some f => repo_set f (length (heap s)) (allm s) | None => allm s end else allm s |})). lia.
 Qed.
 
@@ -688,16 +769,172 @@ Lemma run_op_never_out_of_fuel w c declared opn g o : snd (run_op w c declared o
 Proof.
   unfold run_op.
   destruct (bind_kwargs (o_entry o) (o_kw o)) as [kw|]; [|discriminate].
-  destruct (check_params declared kw); [discriminate|].
+  destruct (match o_entry o with ERepo => None | _ => check_params declared kw end); [discriminate|].
   destruct (is_str_entry (o_entry o) && negb (o_is_str o)); [discriminate|].
   assert (Fin : forall e prim fn fr reg s0,
-    snd (finish_load c g e prim (load_new (fuel_for w) w (c_prov c) opn fn fr kw reg s0)) <> OErr EFuel).
+    snd (finish_load c g e prim (load_new (fuel_for w) w (c_prov c) opn 0 fn fr kw reg s0)) <> OErr EFuel).
   { intros e prim fn fr reg s0. unfold finish_load.
-    destruct (load_new (fuel_for w) w (c_prov c) opn fn fr kw reg s0) as [s'|x] eqn:E; cbn [snd]; [discriminate|].
+    destruct (load_new (fuel_for w) w (c_prov c) opn 0 fn fr kw reg s0) as [s'|x] eqn:E; cbn [snd]; [discriminate|].
     intro X. inversion X; subst. revert E. unfold fuel_for. apply load_new_top_nofuel. lia. }
-  destruct (o_entry o) as [|f|f].
+  destruct (o_entry o) as [|f|f|].
   - apply Fin.
   - destruct (if c_grepo c then repo_find f (g_repo g) else None); [discriminate | apply Fin].
   - destruct (if c_grepo c then repo_find f (g_repo g) else None); [discriminate|].
     destruct (nth_error w f); [apply Fin | discriminate].
+  - destruct (c_prov c); try discriminate.
+    destruct (load_pats _ _ _ _) as [s'|x] eqn:E; cbn [snd]; [discriminate|].
+    intro X. inversion X; subst. revert E. apply load_pats_nofuel with (bound := length w).
+    + intros mm f fr s0 s0' H0. eapply load_new_mono. exact H0.
+    + intros mm f fr s0 Hf Hn Hb. apply load_new_import_nofuel; [assumption | assumption | lia].
+    + apply unreg_le_len.
+Qed.
+
+(* ---------------------------------------------------------------- repository entries always denote existing model objects *)
+
+Definition repo_ok (h : list mrec) (r : list (nat * nat)) : Prop :=
+  forall f id, repo_find f r = Some id -> id < length h.
+Definition sok (s : lstate) : Prop := repo_ok (heap s) (allm s).
+Definition gok (g : gstate) : Prop := repo_ok (g_heap g) (g_repo g).
+
+Lemma repo_ok_heap h h' r : repo_ok h r -> length h <= length h' -> repo_ok h' r.
+Proof. intros H Hl f id Hf. apply H in Hf. lia. Qed.
+
+Lemma repo_ok_set h r f id : repo_ok h r -> id < length h -> repo_ok h (repo_set f id r).
+Proof.
+  intros H Hid f' id' Hf. rewrite repo_set_find in Hf. destruct (Nat.eqb f' f).
+  - inversion Hf; subst. exact Hid.
+  - apply (H f' id' Hf).
+Qed.
+
+Lemma repo_ok_register h r fn id : repo_ok h r -> id < length h -> repo_ok h (repo_register_main fn id r).
+Proof.
+  intros H Hid. unfold repo_register_main. destruct fn as [f|]; [|exact H].
+  destruct (repo_find f r) eqn:E; [exact H|].
+  intros f' id' Hf. rewrite repo_find_app in Hf. destruct (repo_find f' r) eqn:E'.
+  - inversion Hf; subst. apply (H f' id' E').
+  - cbn [repo_find] in Hf. destruct (Nat.eqb f' f); [inversion Hf; subst; exact Hid | discriminate].
+Qed.
+
+Lemma grows_length kw opn s s' : grows kw opn s s' -> length (heap s) <= length (heap s').
+Proof. intros (a & Ha & _). rewrite Ha, app_length. lia. Qed.
+
+Section LoopsOk.
+  Variable rec : nat -> nat -> file -> lstate -> res.
+  Variable w : list file.
+  Variable kw : list (list N * N).
+  Variable opn : nat.
+  Hypothesis rec_grows : forall mm f fr s s', rec mm f fr s = Ok s' -> grows kw opn s s'.
+  Hypothesis rec_sok : forall mm f fr s s', sok s -> rec mm f fr s = Ok s' -> sok s'.
+
+  Lemma load_files_sok fs : forall dflt s s', sok s -> load_files rec w dflt fs s = Ok s' -> sok s'.
+  Proof.
+    induction fs as [|f fs IH]; intros dflt s s' Hs H; cbn [load_files] in H.
+    - inversion H; subst. exact Hs.
+    - destruct (nth_error w f) as [fr|]; [|discriminate].
+      destruct (repo_find f (allm s)); [eapply IH; eassumption|].
+      destruct (mm_for dflt fr) as [mm|]; [|discriminate].
+      destruct (rec mm f fr s) as [s1|e] eqn:E; [|discriminate].
+      eapply IH; [eapply rec_sok; eassumption | exact H].
+  Qed.
+
+  Lemma load_imps_sok prov mm fn id p l : forall s s',
+    sok s -> id < length (heap s) -> load_imps rec w prov mm fn id p l s = Ok s' -> sok s'.
+  Proof.
+    induction l as [|i l IH]; intros s s' Hs Hid H.
+    - cbn [load_imps] in H. inversion H; subst. exact Hs.
+    - destruct (load_imps_step rec w prov mm fn id p i l s) as [E|E]; rewrite E in H; [discriminate|].
+      destruct (resolve i p) as [fs|]; [|discriminate].
+      set (s1 := {| heap := heap s; allm := repo_register_main fn id (allm s) |}) in *.
+      assert (Hs1 : sok s1) by (unfold sok; cbn [heap allm s1]; apply repo_ok_register; assumption).
+      destruct (load_files rec w (Some mm) fs s1) as [s2|e] eqn:E1; [|discriminate].
+      apply (IH s2 s'); [eapply load_files_sok; eassumption | | exact H].
+      pose proof (grows_length _ _ _ _ (load_files_grows rec w kw opn rec_grows fs _ _ _ E1)) as L.
+      cbn [heap s1] in L. lia.
+  Qed.
+
+  Lemma load_pats_sok l : forall s s', sok s -> load_pats rec w l s = Ok s' -> sok s'.
+  Proof.
+    induction l as [|i l IH]; intros s s' Hs H; cbn [load_pats] in H.
+    - inversion H; subst. exact Hs.
+    - destruct (i_plain i) as [fs|]; [|discriminate].
+      destruct (load_files rec w None fs s) as [s1|e] eqn:E; [|discriminate].
+      eapply IH; [eapply load_files_sok; eassumption | exact H].
+  Qed.
+End LoopsOk.
+
+Lemma load_new_sok fuel : forall w prov opn mm fn fr p reg s s',
+  sok s -> load_new fuel w prov opn mm fn fr p reg s = Ok s' -> sok s'.
+Proof.
+  induction fuel as [|fuel IH]; intros w prov opn mm fn fr p reg s s' Hs H; cbn [load_new] in H; [discriminate|].
+  destruct (f_prim fr).
+  - destruct (reg || is_loader prov); [discriminate|]. inversion H; subst.
+    unfold sok. cbn [heap allm]. eapply repo_ok_heap; [exact Hs | rewrite app_length; lia].
+  - set (m := {| m_file := fn; m_prim := false; m_params := Some p; m_op := opn; m_mm := mm |}) in *.
+    assert (Hl : length (heap s) < length (heap s ++ [m])) by (rewrite app_length; cbn [length]; lia).
+    assert (H1 : repo_ok (heap s ++ [m])
+                   (if reg then match fn with Some f => repo_set f (length (heap s)) (allm s) | None => allm s end else allm s)).
+    { assert (H0 : repo_ok (heap s ++ [m]) (allm s)) by (eapply repo_ok_heap; [exact Hs | lia]).
+      destruct reg; [|exact H0]. destruct fn; [apply repo_ok_set; assumption | exact H0]. }
+    destruct (is_loader prov).
+    + cbn [heap] in H. rewrite nth_error_snoc in H. cbn [m_params m] in H.
+      eapply load_imps_sok with (kw := p) (opn := opn) in H; [exact H | | | exact H1 | cbn [heap]; exact Hl].
+      * intros mm' f fr' s0 s0' H0. eapply load_new_grows. exact H0.
+      * intros mm' f fr' s0 s0' Hs0 H0. eapply IH; eassumption.
+    + inversion H; subst. exact H1.
+Qed.
+
+Lemma run_op_gok w c declared opn g o : gok g -> gok (fst (run_op w c declared opn g o)).
+Proof.
+  intro Hg. unfold run_op.
+  destruct (bind_kwargs (o_entry o) (o_kw o)) as [kw|]; [|exact Hg].
+  destruct (match o_entry o with ERepo => None | _ => check_params declared kw end); [exact Hg|].
+  destruct (is_str_entry (o_entry o) && negb (o_is_str o)); [exact Hg|].
+  assert (Fin : forall e prim fn fr reg,
+    gok (fst (finish_load c g e prim (load_new (fuel_for w) w (c_prov c) opn 0 fn fr kw reg
+       {| heap := g_heap g; allm := if c_grepo c then g_repo g else [] |})))).
+  { intros e prim fn fr reg. unfold finish_load.
+    destruct (load_new _ _ _ _ _ _ _ _ _ _) as [s'|x] eqn:E; cbn [fst]; [|exact Hg].
+    unfold gok. cbn [g_heap g_repo].
+    assert (S0 : sok {| heap := g_heap g; allm := if c_grepo c then g_repo g else [] |}).
+    { unfold sok. cbn [heap allm]. destruct (c_grepo c); [exact Hg | intros f id Hf; discriminate]. }
+    pose proof (load_new_sok _ _ _ _ _ _ _ _ _ _ _ S0 E) as S1.
+    destruct (c_grepo c); [exact S1|].
+    eapply repo_ok_heap; [exact Hg|].
+    apply load_new_grows in E. apply grows_length in E. exact E. }
+  destruct (o_entry o) as [|f|f|].
+  - apply Fin.
+  - destruct (if c_grepo c then repo_find f (g_repo g) else None); [exact Hg | apply Fin].
+  - destruct (if c_grepo c then repo_find f (g_repo g) else None); [exact Hg|].
+    destruct (nth_error w f); [apply Fin | exact Hg].
+  - destruct (c_prov c); try exact Hg.
+    destruct (load_pats _ _ _ _) as [s'|x] eqn:E; cbn [fst]; [|exact Hg].
+    unfold gok. cbn [g_heap g_repo]. eapply repo_ok_heap; [exact Hg|].
+    eapply load_pats_grows with (kw := kw) (opn := opn) in E.
+    + apply grows_length in E. exact E.
+    + intros mm f fr s0 s0' H0. eapply load_new_grows. exact H0.
+Qed.
+
+Lemma end_state_gok w c declared : forall ops opn g, gok g -> gok (end_state w c declared opn g ops).
+Proof.
+  induction ops as [|o ops IH]; intros opn g Hg; cbn [end_state]; [exact Hg|].
+  apply IH. apply run_op_gok. exact Hg.
+Qed.
+
+Lemma g_init_gok : gok g_init.
+Proof. intros f id H. discriminate. Qed.
+
+(* after any history: the model returned by a load is either an older object (cached; nothing changes)
+   or the first object this load creates *)
+Lemma history_result_index w c declared ops o g' res n0 repo :
+  run_op w c declared (length ops) (end_state w c declared 0 g_init ops) o = (g', OLoaded res n0 repo) ->
+  (res < n0 /\ g' = end_state w c declared 0 g_init ops /\ c_grepo c = true) \/
+  (res = n0 /\ n0 < length (g_heap g')).
+Proof.
+  intro H. set (g := end_state w c declared 0 g_init ops) in *.
+  assert (Hg : gok g) by (apply end_state_gok, g_init_gok).
+  destruct (bind_kwargs (o_entry o) (o_kw o)) as [kw|] eqn:Hb.
+  - destruct (run_op_loaded _ _ _ _ _ _ _ _ _ _ _ H Hb) as (Hn & added & Ha & _ & [(He & Hgg & Hc & f & Hf)|(Hr & Hne)]).
+    + left. split; [|split; assumption]. subst n0. apply (Hg f res Hf).
+    + right. split; [exact Hr|]. rewrite Ha, app_length, Hn. destruct added; [contradiction | cbn [length]; lia].
+  - unfold run_op in H. rewrite Hb in H. inversion H.
 Qed.
